@@ -461,10 +461,22 @@ func (f *Frame) bindLoopSpecs() {
 func (f *Frame) modifiedCells(li *loopInfo) (map[string]bool, bool) {
 	mod := map[string]bool{}
 	ok := true
+	// local slice variables that the loop writes only element-wise (s[i] = x): their length and nil-ness survive the loop
+	whole := map[string]bool{}
+	li.elemOnly = map[string]bool{}
 	for b := range li.blocks {
 		for _, ins := range b.Instrs {
 			switch x := ins.(type) {
 			case *ssa.Store:
+				if ia, isIdx := x.Addr.(*ssa.IndexAddr); isIdx {
+					if u, isLoad := ia.X.(*ssa.UnOp); isLoad && u.Op == token.MUL {
+						if a, isAlloc := u.X.(*ssa.Alloc); isAlloc && !a.Heap {
+							li.elemOnly[f.localKey(a)] = true
+						}
+					}
+				} else if a, isAlloc := x.Addr.(*ssa.Alloc); isAlloc && !a.Heap {
+					whole[f.localKey(a)] = true
+				}
 				if !f.rootsOfAddr(x.Addr, mod) {
 					ok = false
 				}
@@ -493,6 +505,9 @@ func (f *Frame) modifiedCells(li *loopInfo) (map[string]bool, bool) {
 			case *ssa.Go, *ssa.Send, *ssa.Select:
 			}
 		}
+	}
+	for k := range whole {
+		delete(li.elemOnly, k)
 	}
 	return mod, ok
 }
@@ -721,6 +736,10 @@ func (f *Frame) loopHeader(li *loopInfo) {
 			continue
 		}
 		c := vc.fresh(k+"@loop"+fmt.Sprint(li.header.Index), s)
+		if prev, had := f.cur.cells[k]; had && li.elemOnly[k] && strings.HasPrefix(s, "Slice_") && s != SBS {
+			// only elements were stored: same length, same nil-ness
+			vc.assume(and(eq(sx("len_"+s, c), sx("len_"+s, prev)), eq(sx("nil_"+s, c), sx("nil_"+s, prev))))
+		}
 		f.cur.cells[k] = c
 		if t := vc.cellType[k]; t != nil {
 			vc.assume(vc.S.wellTyped(c, t, 0))
@@ -1559,7 +1578,13 @@ func (f *Frame) mapLen(st *State, ref string, t types.Type) string {
 	mt := t.Underlying().(*types.Map)
 	mc, ms := f.mapContent(st, ref, t)
 	fn := "card_" + ms
-	vc.declareFun(fn, []Sort{"(Array " + vc.sortOf(mt.Key()) + " Bool)"}, SInt)
+	ks := vc.sortOf(mt.Key())
+	if !vc.declSet[fn] {
+		vc.declareFun(fn, []Sort{"(Array " + ks + " Bool)"}, SInt)
+		// finite key sets: the empty set has no element, adding a key counts once
+		vc.assume(fmt.Sprintf("(= (%s %s) 0)", fn, vc.S.constArr(ks, "Bool", "false")))
+		vc.assume(fmt.Sprintf("(forall ((d (Array %s Bool)) (k %s)) (! (= (%s (store d k true)) (+ (%s d) (ite (select d k) 0 1))) :pattern ((%s (store d k true)))))", ks, ks, fn, fn, fn))
+	}
 	c := sx(fn, sx("dom_"+ms, mc))
 	vc.assume(sx("<=", "0", c))
 	return ite(eq(ref, "0"), "0", c)
